@@ -62,6 +62,9 @@ func genC06(r *sim.Rand, tier string) *sim.Program {
 			case 2:
 				// constructive forgery attempt: r + s = n with the digest that would satisfy the equation if t = 0 were not refused
 				p.Add("tzero", r.Intn(1<<30))
+			case 3:
+				// constructive: the pair for which [s]G + [t]P is the point at infinity (only the key holder can build it)
+				p.Add("infinity", r.Intn(1<<30))
 			default:
 				p.Add("sign", r.Intn(3), r.Intn(1<<30)).WithB(r.Bytes(uidLen()), r.Bytes(r.PickInt(0, 1, 32, 33, 100, 300)))
 			}
@@ -69,7 +72,7 @@ func genC06(r *sim.Rand, tier string) *sim.Program {
 			continue
 		}
 		s := r.Intn(nsig)
-		switch r.Intn(12) {
+		switch r.Intn(13) {
 		case 0:
 			p.Add("deliver", s)
 		case 1, 2, 3:
@@ -84,6 +87,8 @@ func genC06(r *sim.Rand, tier string) *sim.Program {
 			p.Add("field", s, r.Intn(2), r.Intn(9)) // which integer, replacement kind
 		case 10:
 			p.Add("cross", s, r.Intn(4))
+		case 11:
+			p.Add("bigint", s)
 		default:
 			p.Add("random", s).WithB(r.Bytes(32), r.Bytes(32))
 		}
@@ -177,6 +182,23 @@ func execC06(t *testing.T, p *sim.Program, c *sim.Ctx) {
 			got2 = got1
 		}
 		c.Out(kind, []byte{b2i(got1), b2i(got2)})
+		if r, s, ok := sm2m.ParseStrictDERSig(sig); ok {
+			// the same pair through the (r, s *big.Int) entry points
+			got3 := sm2.Verify(key, e[:], r, s)
+			got4 := got3
+			if rawDigest == nil {
+				got4 = sm2.VerifyWithSM2(key, uid, msg, r, s)
+			}
+			c.Out(kind+"/big", []byte{b2i(got3), b2i(got4)})
+			if got3 != want || got4 != want {
+				cls := "valid-signature-rejected"
+				if !want {
+					cls = "invalid-signature-accepted"
+				}
+				c.Fail(cls, i, kind, "the big.Int entry points disagree with the model after %s (Verify=%v, VerifyWithSM2=%v, model=%v): r=%x s=%x", kind, got3, got4, want, r, s)
+				return
+			}
+		}
 		if want {
 			c.Hit("probe:delivery-model-accepts")
 		} else {
@@ -281,6 +303,31 @@ func execC06(t *testing.T, p *sim.Program, c *sim.Ctx) {
 			rawDigest = e.FillBytes(make([]byte, 32))
 			deliver(i, "t-zero-forgery", &priv.PublicKey, pub, nil, nil, sm2m.MarshalDERSig(rv, sv))
 			deliver(i, "t-zero-forgery-other-key", &other.PublicKey, opub, nil, nil, sm2m.MarshalDERSig(rv, sv))
+			rawDigest = nil
+			continue
+		}
+		if op.K == "infinity" {
+			// a pair the KEY HOLDER can craft: r = e mod n, s = -r d (1+d)^-1, so that [s]G + [r+s]P is the point at
+			// infinity. It has no abscissa: B6/B7 cannot be evaluated and the pair must be refused (an implementation
+			// that lets x1 default to 0 accepts it, because R = e + 0 = r).
+			if kk >= 3 || d.Sign() == 0 {
+				continue
+			}
+			n := sm2m.N
+			eb := derive(append([]byte(fmt.Sprint(op.Int(0))), p.CB("d")...), "inf", 32)
+			rv := new(big.Int).Mod(new(big.Int).SetBytes(eb), n)
+			dp1 := new(big.Int).Add(d, big.NewInt(1))
+			sv := new(big.Int).Mul(rv, d)
+			sv.Mul(sv, dp1.ModInverse(dp1, n))
+			sv.Neg(sv)
+			sv.Mod(sv, n)
+			if rv.Sign() == 0 || sv.Sign() == 0 || new(big.Int).Mod(new(big.Int).Add(rv, sv), n).Sign() == 0 {
+				continue
+			}
+			c.Abs("infinity")
+			c.Hit("probe:point-at-infinity-pair")
+			rawDigest = eb
+			deliver(i, "point-at-infinity-pair", &priv.PublicKey, pub, nil, nil, sm2m.MarshalDERSig(rv, sv))
 			rawDigest = nil
 			continue
 		}
@@ -500,6 +547,31 @@ func execC06(t *testing.T, p *sim.Program, c *sim.Ctx) {
 			rr, ss := new(big.Int).SetBytes(op.Bytes(0)), new(big.Int).SetBytes(op.Bytes(1))
 			c.Abs("rnd")
 			deliver(i, "random-r-s", &priv.PublicKey, pub, sg.uid, sg.msg, sm2m.MarshalDERSig(rr, ss))
+		case "bigint":
+			// values that only the (r, s *big.Int) entry points can be handed: negative numbers, and the usual range ends
+			n := sm2m.N
+			neg := func(x *big.Int) *big.Int { return new(big.Int).Neg(x) }
+			pairs := [][2]*big.Int{{r, neg(s)}, {neg(r), s}, {neg(r), neg(s)}, {r, new(big.Int)}, {new(big.Int), s}, {r, new(big.Int).Add(s, n)}, {new(big.Int).Add(r, n), s},
+				{r, new(big.Int).Sub(s, n)}, {new(big.Int).Sub(r, n), s}, {r, n}, {n, s}}
+			c.Abs("big")
+			c.Hit("fault:bigint-out-of-range")
+			e := sg.e
+			for k, pr := range pairs {
+				got := sm2.Verify(&priv.PublicKey, e, pr[0], pr[1])
+				got2 := got
+				if !sg.raw {
+					got2 = sm2.VerifyWithSM2(&priv.PublicKey, sg.uid, sg.msg, pr[0], pr[1])
+				}
+				c.Out("big", []byte{b2i(got), b2i(got2)})
+				if got || got2 {
+					c.Fail("invalid-signature-accepted", i, op.K, "the big.Int entry points accept a pair outside [1, n-1] (variant %d: Verify=%v VerifyWithSM2=%v): r=%s s=%s", k, got, got2, pr[0].Text(16), pr[1].Text(16))
+					break
+				}
+			}
+			// and the honest pair is accepted there
+			if kk <= 2 && (!sm2.Verify(&priv.PublicKey, e, r, s) || (!sg.raw && !sm2.VerifyWithSM2(&priv.PublicKey, sg.uid, sg.msg, r, s))) {
+				c.Fail("valid-signature-rejected", i, op.K, "the big.Int entry points reject the honest pair")
+			}
 		}
 	}
 }
